@@ -447,10 +447,209 @@ pub fn declared_correct_midway(ctx: &mut Ctx, data: &[u8], desc: &str) -> R {
         return Err(Fail {
             check,
             details: format!(
-                "the correct total size declared while feeding\ninput {}: {}\ncalls on a new generator: {}\n{}\n(without the declaration a generator fed the same bytes gives the reference hash: {})",
-                desc, show_bytes(data), plan, what, diff_oneshot(data).is_none()
+                "the correct total size declared while feeding\ncalls on a new generator: {}\n{}\n(without the declaration a generator fed the same bytes gives the reference hash: {})\ninput {}: {}",
+                plan, what, diff_oneshot(data).is_none(), desc, show_bytes(data)
             ),
         });
+    }
+    Ok(())
+}
+
+/// A refused declaration must leave the generator unchanged, the fork limit included:
+/// declare A (Ok); try B != A (much smaller, much larger, beyond 192 GiB) and check the
+/// error; feed exactly A bytes in mixed forms (some of them possibly before the first and
+/// between the declarations); every finalize form must give the reference CTPH.
+pub fn refused_declaration(ctx: &mut Ctx, tag: &str) -> R {
+    ctx.input();
+    let (data, desc) = match ctx.rng.below(4) {
+        0 => boundary_rich_input(ctx),
+        1 => gen::gen_input(&mut ctx.rng, 7),
+        _ => {
+            let n = *ctx.rng.pick(&[200usize, 3_000, 20_000, 65_536, 100_000, 400_000]) + ctx.rng.range(0, 99);
+            let seed = ctx.rng.next() as u32;
+            (lcg_bytes(seed, n), format!("{} bytes from the LCG x<-x*1664525+1013904223 (u32), x0={}, byte=x>>24", n, seed))
+        }
+    };
+    let a = data.len() as u64;
+    let k0 = if ctx.rng.chance(1, 2) { 0 } else { ctx.rng.range(0, data.len()) };
+    let k1 = if ctx.rng.chance(1, 2) { k0 } else { ctx.rng.range(k0, data.len()) };
+    let nrefused = ctx.rng.range(1, 3);
+    let simple = ctx.rng.chance(1, 2);
+    let mut plan = String::new();
+    let res = guard(|| {
+        let mut g = Generator::new();
+        let feed = |g: &mut Generator, part: &[u8], plan: &mut String, ctx: &mut Ctx| {
+            if part.is_empty() {
+                return;
+            }
+            if simple || part.len() > 20_000 {
+                g.update(part);
+                plan.push_str(&format!("update({}) ", part.len()));
+            } else {
+                let p = feed_randomly(ctx, g, part);
+                if p.len() > 300 {
+                    plan.push_str(&format!("[{} bytes in {} mixed calls] ", part.len(), p.split(' ').count()));
+                } else {
+                    plan.push_str(&p);
+                }
+            }
+        };
+        feed(&mut g, &data[..k0], &mut plan, ctx);
+        let r = g.set_fixed_input_size(a);
+        plan.push_str(&format!("set_fixed_input_size({})={:?} ", a, r));
+        if r != Ok(()) {
+            return Some(("set-fixed-input-size-result", format!("real code: the first declaration set_fixed_input_size({}) = {:?}\noracle: Ok(())", a, r)));
+        }
+        feed(&mut g, &data[k0..k1], &mut plan, ctx);
+        for _ in 0..nrefused {
+            let b: u64 = match ctx.rng.below(8) {
+                0 => 0,
+                1 => 1,
+                2 => 100,
+                3 => a / 100,
+                4 => a * 50 + 7,
+                5 => oracle::MAX_INPUT,
+                6 => oracle::MAX_INPUT + 1 + ctx.rng.below(1000),
+                _ => (96u64 << 30) + 1,
+            };
+            if b == a {
+                continue;
+            }
+            let want = if b > oracle::MAX_INPUT { Err(GeneratorError::FixedSizeTooLarge) } else { Err(GeneratorError::FixedSizeMismatch) };
+            let r = if ctx.rng.chance(1, 4) { g.set_fixed_input_size_in_usize(b as usize) } else { g.set_fixed_input_size(b) };
+            plan.push_str(&format!("set_fixed_input_size({})={:?} ", b, r));
+            if r != want {
+                return Some(("set-fixed-input-size-result", format!("real code: the second declaration set_fixed_input_size({}) after {} = {:?}\noracle: {:?}", b, a, r, want)));
+            }
+        }
+        feed(&mut g, &data[k1..], &mut plan, ctx);
+        plan.push_str("finalize");
+        diff_generator(&g, 0, &data, true)
+    });
+    ctx.checks.extend(GENERATOR_CHECKS);
+    ctx.checks.extend(["set-fixed-input-size-result", "refused-declaration-leaves-generator-unchanged"]);
+    let d = match res {
+        Ok(d) => d,
+        Err(msg) => Some(("generator-panic", format!("real code: PANICKED: {}\noracle: never panics", msg))),
+    };
+    if let Some((check, what)) = d {
+        return Err(Fail {
+            check,
+            details: format!(
+                "[{}] a refused declaration must leave the generator unchanged\ncalls on a new generator: {}\n{}\ninput ({} bytes) {}{}",
+                tag, plan, what, data.len(), desc, if desc.contains("LCG") { String::new() } else { format!(": {}", show_bytes(&data)) }
+            ),
+        });
+    }
+    Ok(())
+}
+
+/// Declared sizes around 96 GiB .. 192 GiB (and no declaration) with inputs that end a piece
+/// at every level 0..=30 at once: no panic; Err(FixedSizeMismatch) when declared != fed;
+/// the reference CTPH otherwise.
+pub fn high_declared_sizes(ctx: &mut Ctx, tag: &str) -> R {
+    const G96: u64 = 96u64 << 30;
+    let sizes: [Option<u64>; 9] = [None, Some(G96 - 1), Some(G96), Some(G96 + 1), Some(G96 + 2), Some(128u64 << 30), Some(oracle::MAX_INPUT - 1), Some(oracle::MAX_INPUT), Some(48u64 << 30)];
+    for &declared in &sizes {
+        ctx.input();
+        // the input: optional zero / random bytes, then trigger words for the top levels, once or several times
+        let mut data = Vec::new();
+        let pre = *ctx.rng.pick(&[0usize, 0, 1, 6, 7, 20, 100]);
+        let style = *ctx.rng.pick(&[4u8, 0]);
+        gen::fill(&mut ctx.rng, &mut data, pre, style);
+        let words = *ctx.rng.pick(&[1usize, 1, 2, 3, 33, 70]);
+        for _ in 0..words {
+            let lvl = *ctx.rng.pick(&[30u8, 30, 30, 29, 28, 25]);
+            data.extend_from_slice(&gen::trigger_word(&mut ctx.rng, lvl));
+            let gap = ctx.rng.range(0, 9);
+            gen::fill(&mut ctx.rng, &mut data, gap, style);
+        }
+        if ctx.rng.chance(1, 2) {
+            data.push(1 + ctx.rng.below(255) as u8);
+        }
+        let form = ctx.rng.below(5);
+        // with the verification hook the declared size can really be reached
+        #[cfg(a4lg_ffuzzy_verif)]
+        let zeros: u64 = match declared {
+            Some(d) if ctx.rng.chance(2, 3) => (d + ctx.rng.below(3)).saturating_sub(1).saturating_sub(data.len() as u64),
+            _ => 0,
+        };
+        #[cfg(not(a4lg_ffuzzy_verif))]
+        let zeros: u64 = 0;
+        let declare_first = ctx.rng.chance(3, 4);
+        let mut plan = String::new();
+        let res = guard(|| {
+            #[cfg(a4lg_ffuzzy_verif)]
+            let mut g: Generator = if zeros > 0 { Generator::verif_after_zero_bytes(zeros) } else { Generator::new() };
+            #[cfg(not(a4lg_ffuzzy_verif))]
+            let mut g = Generator::new();
+            if zeros > 0 {
+                plan.push_str(&format!("(state after {} zero bytes) ", zeros));
+            }
+            let declare = |g: &mut Generator, plan: &mut String| -> Option<(&'static str, String)> {
+                if let Some(d) = declared {
+                    let r = g.set_fixed_input_size(d);
+                    plan.push_str(&format!("set_fixed_input_size({}) ", d));
+                    if r != Ok(()) {
+                        return Some(("set-fixed-input-size-result", format!("real code: set_fixed_input_size({}) = {:?}\noracle: Ok(()) (not above 192 GiB)", d, r)));
+                    }
+                }
+                None
+            };
+            if declare_first {
+                if let Some(b) = declare(&mut g, &mut plan) {
+                    return Some(b);
+                }
+            }
+            match form {
+                0 => {
+                    plan.push_str(&format!("update({}) ", data.len()));
+                    g.update(&data);
+                }
+                1 => {
+                    plan.push_str(&format!("update_by_iter({}) ", data.len()));
+                    g.update_by_iter(data.iter().copied());
+                }
+                2 => {
+                    plan.push_str(&format!("update_by_byte x{} ", data.len()));
+                    for &b in &data {
+                        g.update_by_byte(b);
+                    }
+                }
+                3 => {
+                    let (it, name) = gen::odd_iter(&mut ctx.rng, &data);
+                    plan.push_str(&format!("update_by_iter[{}]({}) ", name, data.len()));
+                    g.update_by_iter(it);
+                }
+                _ => {
+                    plan.push_str(&format!("[{} bytes in mixed update forms] ", data.len()));
+                    let _ = feed_randomly(ctx, &mut g, &data);
+                }
+            }
+            if !declare_first {
+                if let Some(b) = declare(&mut g, &mut plan) {
+                    return Some(b);
+                }
+            }
+            plan.push_str("finalize");
+            let total = zeros + data.len() as u64;
+            diff_generator(&g, zeros, &data, declared.map_or(true, |d| d == total))
+        });
+        ctx.checks.extend(GENERATOR_CHECKS);
+        ctx.checks.extend(["finalize-after-wrong-declared-size", "high-declared-sizes-never-panic"]);
+        let d = match res {
+            Ok(d) => d,
+            Err(msg) => Some(("generator-panic", format!("real code: PANICKED: {} (replay is built in release mode with overflow checks on, debug assertions off)\noracle: never panics; finalize gives Err(FixedSizeMismatch) when the declared size differs from the bytes fed, the reference hash otherwise", msg))),
+        };
+        if let Some((check, what)) = d {
+            return Err(Fail {
+                check,
+                details: format!(
+                    "[{}] declared size {:?} ({} zero bytes assumed fed through the verification hook), input {}\ncalls: {}\n{}",
+                    tag, declared, zeros, show_bytes(&data), plan, what
+                ),
+            });
+        }
     }
     Ok(())
 }
@@ -506,6 +705,10 @@ pub fn c01(ctx: &mut Ctx) -> R {
         declared_correct_midway(ctx, &d2, &desc2)?;
         if round % 32 == 0 {
             reuse_history(ctx, "C01: reused generator")?;
+        }
+        if round % 16 == 1 {
+            refused_declaration(ctx, "C01")?;
+            high_declared_sizes(ctx, "C01: declared sizes up to 192 GiB, pieces at every level")?;
         }
     }
     Ok(())
@@ -743,6 +946,8 @@ pub fn declared_vs_fed(ctx: &mut Ctx, tag: &str) -> R {
 pub fn c12(ctx: &mut Ctx) -> R {
     while ctx.alive() {
         declared_vs_fed(ctx, "C12: declared size against the bytes fed")?;
+        refused_declaration(ctx, "C12")?;
+        high_declared_sizes(ctx, "C12: declared sizes up to 192 GiB, pieces at every level")?;
         let (d2, desc2) = if ctx.rng.chance(1, 2) { boundary_rich_input(ctx) } else { gen::gen_input(&mut ctx.rng, 6) };
         declared_correct_midway(ctx, &d2, &desc2)?;
         reuse_history(ctx, "C12: reset() and declared sizes on a reused generator")?;
@@ -885,6 +1090,10 @@ pub fn c13(ctx: &mut Ctx) -> R {
             return Err(fail_oneshot(&data, &desc));
         }
         declared_correct_midway(ctx, &data, &desc)?;
+        if round % 5 == 1 {
+            high_declared_sizes(ctx, "C13: declared sizes up to 192 GiB, pieces at every level")?;
+            refused_declaration(ctx, "C13")?;
+        }
         if round % 5 == 0 {
             let (d2, desc2) = boundary_rich_input(ctx);
             declared_correct_midway(ctx, &d2, &desc2)?;
